@@ -327,6 +327,11 @@ static int world_rel(int dirfd, const char *path, char *rel) {
   return 1;
 }
 
+#define LIVELOCK_N 3000
+static char g_last_fail[RELMAX];
+static int g_last_fail_rule = -1;
+static long g_same_fail = 0;
+
 static int sel_match(const struct rule *r, const char *target) {
   if (!strcmp(r->sel, "**")) return 1;
   if (!strcmp(r->sel, "*")) return target[0] != '@';
@@ -343,6 +348,23 @@ static void trace_line(const char *sym, const char *target, long arg, long ret, 
   buf[n++] = '\n';
   ssize_t w = real_write(g_trace_fd, buf, (size_t)n);
   (void)w;
+  /* Bounded progress: the same hard failure answered to the same target over and over means the
+   * tool retries a persistent error without bound (it would never finish). After LIVELOCK_N
+   * consecutive identical failures the simulator ends the run in a recognisable way; the
+   * harness reports it as a violation (deterministic: counted in simulated steps, not seconds). */
+  if (rule >= 0 && ret < 0 && err && err != EINTR && err != EAGAIN && target[0] != '@') {
+    /* (standard streams excluded: a tool may ignore a broken stdout and go on printing;
+     * successes in between do not reset the count: a retry loop may re-open the file each time) */
+    if (!strcmp(g_last_fail, target) && g_last_fail_rule == rule) g_same_fail++;
+    else { snprintf(g_last_fail, sizeof g_last_fail, "%s", target); g_last_fail_rule = rule; g_same_fail = 1; }
+    if (g_same_fail >= LIVELOCK_N) {
+      n = snprintf(buf, sizeof buf, "%llu livelock %s %ld -> -1 %s FAULT=%d:%s\n", (unsigned long long)g_seq, target,
+                   g_same_fail, errno_name(err), rule, kind_names[g_rules[rule].kind]);
+      w = real_write(g_trace_fd, buf, (size_t)n);
+      (void)w;
+      _exit(98);
+    }
+  }
 }
 
 /* called at the start of every in-world event, with the lock held: crash rule + seq */
@@ -381,7 +403,11 @@ static int nth_rule(int kind, const char *target) {
       if ((r->when == 0 && (r->hits % 2) == 1) || (r->when > 0 && r->hits == r->when)) {
         r->fired = 1; hit = i;
       }
-    } else if (r->hits == r->when) {
+    } else if (r->hits >= r->when) {
+      /* hard open faults are sticky: from the n-th matching call on every one fails - a path the
+       * simulator declared unreadable / unwritable stays so for the whole run (a tool that
+       * tries again must not be judged for having succeeded), and `openw:*:1` is a read-only
+       * world */
       r->fired = 1; hit = i;
     }
   }
